@@ -416,8 +416,16 @@ func Check(env *core.Env, rep *core.Report) *core.Result {
 				perCmdOut, perCmdAll = append(perCmdOut, b), append(perCmdAll, append(append([]byte{}, b...), b...))
 			}
 		}
+		// every seventh producer allows failure and its first command fails AFTER writing its output:
+		// the output is captured and handed on (.Output, exported variable) like any other
+		if i%7 == 2 {
+			cmds[0] = "{ " + cmds[0] + "; }; exit 3"
+		}
 		p := task.FromCommands(cmds...)
 		p.Name = "prod"
+		if i%7 == 2 {
+			p.AllowFailure = true
+		}
 		if i%5 == 3 {
 			p.Interactive = true // an interactive task's output is captured and handed over like any other
 		}
@@ -443,7 +451,7 @@ func Check(env *core.Env, rep *core.Report) *core.Result {
 				prev = string(perCmdAll[j])
 			}
 		}
-		desc := fmt.Sprintf("[commands %v to %v, %d variation(s), output format %s, interactive=%v]", c.pay, c.to, c.nv, c.format, p.Interactive)
+		desc := fmt.Sprintf("[commands %v to %v, %d variation(s), output format %s, interactive=%v, first command fails (allowed)=%v]", c.pay, c.to, c.nv, c.format, p.Interactive, p.AllowFailure)
 		if p.Output() != string(want) {
 			add("capture:task-output-differs", fmt.Sprintf("Task.Output() has %d bytes, the commands wrote %d bytes to stdout %s", len(p.Output()), len(want), desc), map[string]interface{}{"case": c, "got_prefix": clip(p.Output()), "want_prefix": clip(string(want))})
 		}
